@@ -165,6 +165,9 @@ const HOSTS: &[(&str, &str, &str)] = &[
     ("(□)\\1", "(", ")\\1"),
     ("(?<=x)□", "(?<=x)", ""),
     ("(?>□)", "(?>", ")"),
+    ("(?=)[xy]□", "(?=)[xy]", ""),
+    ("□[xy](?=)", "", "[xy](?=)"),
+    ("(?<=□)x", "(?<=", ")x"),
 ];
 
 /// where the literal host would match: same search written with str::find
@@ -178,6 +181,28 @@ fn host_expected(host: &str, s: &str, text: &str) -> Option<(usize, usize)> {
         "(□)\\1" => {
             let lit = format!("{}{}", s, s);
             text.find(&lit).map(|i| (i, i + lit.len()))
+        }
+        "(?=)[xy]□" => {
+            let a = text.find(&format!("x{}", s));
+            let b = text.find(&format!("y{}", s));
+            let i = match (a, b) {
+                (Some(a), Some(b)) => Some(a.min(b)),
+                (a, b) => a.or(b),
+            };
+            i.map(|i| (i, i + 1 + s.len()))
+        }
+        "□[xy](?=)" => {
+            let a = text.find(&format!("{}x", s));
+            let b = text.find(&format!("{}y", s));
+            let i = match (a, b) {
+                (Some(a), Some(b)) => Some(a.min(b)),
+                (a, b) => a.or(b),
+            };
+            i.map(|i| (i, i + 1 + s.len()))
+        }
+        "(?<=□)x" => {
+            let lit = format!("{}x", s);
+            text.find(&lit).map(|i| (i + s.len(), i + s.len() + 1))
         }
         "(?<=x)□" => {
             let lit = format!("x{}", s);
@@ -230,7 +255,7 @@ pub fn run_c17(cx: &Ctx) -> i32 {
             // texts: s, x+s+y for x,y in a small set, s with one character dropped, s doubled
             let mut texts: Vec<String> = vec![s.clone(), format!("{}{}", s, s)];
             for x in ["", "a", "\\", "x", "é"] {
-                for y in ["", "a", "$", "y"] {
+                for y in ["", "a", "$", "y", "x"] {
                     texts.push(format!("{}{}{}", x, s, y));
                 }
             }
